@@ -59,6 +59,7 @@ def rq(name, entry, spec, ops=None, kind=0, ql=1, ql2=1, t0l=1, t1l=1, verify=0,
         "parse_next_key.0": R + 1, "_varint_decode.0": 3 if big_off >= 128 else 2,
         "memcmp.0": maxlen + 1, "mtbl_decompress.0": 65,
         "ubuf_reserve.0": 1, "ubuf_reserve$link1.0": 1, "ubuf_reserve$link2.0": 1,
+        "r_layout.0": spec.get("pfx", 0) + 2,      # the foreign-prefix loop of the reference encoder
     }
     smp = {"entries": n, "key_lens": kls, "val_lens": vls, "blocks": blk, "restarts": rsts, "shared": spec.get("shs"),
            "sep_lens": spec.get("sepl"), "version": spec.get("ver", 2), "prefix": spec.get("pfx", 0),
